@@ -3,6 +3,7 @@
 package c20
 
 import (
+	"bytes"
 	"os"
 	"sync"
 	"sync/atomic"
@@ -81,6 +82,41 @@ func TestVerifABEObjectReuse(t *testing.T) {
 			lib.Violation("C20:ciphertext-tied-to-policy-object:PublicKey.Encrypt", rmon, lib.D("policy", p.text))
 		}
 		lib.Count("reuse:policy-reparsed")
+	}
+	// the randomness source may deliver its octets in short pieces: Encrypt,
+	// KeyGen and Setup must produce exactly what they produce from the same
+	// octets delivered whole
+	{
+		lib.Mandatory("reuse:short-read-randomness")
+		var p0 tkn20.Policy
+		_ = p0.FromString(pols[1].text)
+		// (one byte string per call: lib.Rng itself is not a byte stream, a read
+		// of 3 octets consumes a whole word)
+		rb := [3][]byte{lib.NewRng("c20/reuse/short", 0).Bytes(1 << 16), lib.NewRng("c20/reuse/short", 1).Bytes(1 << 16), lib.NewRng("c20/reuse/short", 2).Bytes(1 << 18)}
+		c1, e1 := pk.Encrypt(bytes.NewReader(rb[0]), p0, msg)
+		c2, e2 := pk.Encrypt(&lib.ShortReader{R: bytes.NewReader(rb[0])}, p0, msg)
+		var a0 tkn20.Attributes
+		a0.FromMap(map[string]string{"a": "1", "b": "1"})
+		k1, e3 := msk.KeyGen(bytes.NewReader(rb[1]), a0)
+		k2, e4 := msk.KeyGen(&lib.ShortReader{R: bytes.NewReader(rb[1])}, a0)
+		kb1, _ := k1.MarshalBinary()
+		kb2, _ := k2.MarshalBinary()
+		lib.Count("reuse:short-read-randomness")
+		if e1 != nil || e2 != nil || e3 != nil || e4 != nil || !lib.Eq(c1, c2) || !lib.Eq(kb1, kb2) {
+			lib.Violation("C20:result-depends-on-how-the-randomness-is-delivered:tkn20", rmon, lib.D("encrypt_same", lib.Eq(c1, c2), "keygen_same", lib.Eq(kb1, kb2),
+				"errs", []any{e1, e2, e3, e4}))
+		}
+		if lib.Thorough() {
+			p1, s1, _ := tkn20.Setup(bytes.NewReader(rb[2]))
+			p2, s2, _ := tkn20.Setup(&lib.ShortReader{R: bytes.NewReader(rb[2])})
+			a, _ := p1.MarshalBinary()
+			b, _ := p2.MarshalBinary()
+			c, _ := s1.MarshalBinary()
+			d, _ := s2.MarshalBinary()
+			if !lib.Eq(a, b) || !lib.Eq(c, d) {
+				lib.Violation("C20:result-depends-on-how-the-randomness-is-delivered:tkn20.Setup", rmon, lib.D())
+			}
+		}
 	}
 	// keys, all generated through ONE Attributes variable and ONE map
 	var at tkn20.Attributes
